@@ -142,6 +142,8 @@ func checkC09(c *Ctx) Meta {
 		checkStateGuard(c, spec.pkg, spec.label)
 		checkQueueCleared(c, spec.pkg, spec.label)
 		checkSinglePlotter(c, spec.pkg, spec.label)
+		checkQueueDeleteAll(c, spec.pkg, spec.label)
+		checkOnStopWaits(c, spec.pkg, spec.label)
 		checkStep3(c, "C09-STEP3", spec.pkg, spec.label)
 		checkPoppedItem(c, spec.pkg, spec.label)
 		checkListAliasing(c, spec.pkg, spec.label)
@@ -844,7 +846,7 @@ func checkPoppedItem(c *Ctx, pkg, label string) {
 					return
 				}
 			}
-			bad = c.Pos(ret.Pos())
+			bad = c.Pos(ret.Pos()) + " "
 		})
 	}
 	// and the writers of wouldMining outside the constructor reach their object through PoppedItem / the queue
@@ -1071,5 +1073,109 @@ func checkListAliasing(c *Ctx, pkg, label string) {
 		} else {
 			c.Note("%s: deleteFromSlice modifies its argument's array in place (allowed as long as no loop iterates an alias)", label)
 		}
+	}
+}
+
+// checkQueueDeleteAll: plotterQueue.Delete(sid) removes every entry of the space: the scan over the
+// queue ends only when the queue is exhausted, never on the first match.
+func checkQueueDeleteAll(c *Ctx, pkg, label string) {
+	rule := "C09-QUEUE"
+	short := strings.TrimPrefix(pkg, repoMod+"/")
+	f := c.MustFn(rule, short, "(*plotterQueue).Delete")
+	if f == nil {
+		return
+	}
+	key := label + ":plotterQueue.Delete:removes-every-entry"
+	var pops []ssa.Instruction
+	allInstrs(f, func(in ssa.Instruction) {
+		if cl, ok := in.(*ssa.Call); ok && callName(cl) == "Pop" && blockReentered(f, cl) {
+			pops = append(pops, cl)
+		}
+	})
+	if len(pops) == 0 {
+		c.Bad(rule, key, c.Pos(f.Pos()), "reason=anchor-missing: the scan loop popping the queue")
+		return
+	}
+	bad := ""
+	isBad := false
+	exits := 0
+	for _, pop := range pops {
+		// loop blocks: those that reach the Pop and are reached from it
+		inLoop := map[*ssa.BasicBlock]bool{}
+		fromPop := reach(f, pop, nil, nil)
+		for _, b := range f.Blocks {
+			if len(b.Instrs) == 0 {
+				continue
+			}
+			first := b.Instrs[0]
+			if (fromPop(first) || b == pop.Block()) && (reach(f, first, nil, nil)(pop) || b == pop.Block()) {
+				inLoop[b] = true
+			}
+		}
+		for b := range inLoop {
+			for _, s2 := range b.Succs {
+				if inLoop[s2] {
+					continue
+				}
+				exits++
+				iff, ok := b.Instrs[len(b.Instrs)-1].(*ssa.If)
+				okExit := false
+				if ok {
+					for x := range backSlice(iff.Cond).vals {
+						if cl, isC := x.(*ssa.Call); isC && callName(cl) == "Empty" {
+							okExit = true
+						}
+					}
+				}
+				if !okExit {
+					isBad = true
+					bad = c.Pos(pop.Pos())
+				}
+			}
+		}
+	}
+	if isBad {
+		c.Bad(rule, key, bad, "the scan leaves the loop before the queue is exhausted (on a match): a space queued more than once keeps an entry after Stop/Remove/Delete and is plotted anyway")
+	} else if exits == 0 {
+		c.Bad(rule, key, c.Pos(f.Pos()), "reason=anchor-missing: loop exit")
+	} else {
+		c.OK(rule, key, c.Pos(pops[0].Pos()), "the scan ends only when the queue is empty")
+	}
+}
+
+// checkOnStopWaits: OnStop returns only after the plotter goroutine has ended (wg.Wait on every path),
+// otherwise a restarted keeper runs two plotters.
+func checkOnStopWaits(c *Ctx, pkg, label string) {
+	rule := "C09-PLOTTER"
+	short := strings.TrimPrefix(pkg, repoMod+"/")
+	f := c.MustFn(rule, short, "(*SpaceKeeper).OnStop")
+	if f == nil {
+		return
+	}
+	key := label + ":OnStop:waits-for-the-plotter"
+	isWait := func(in ssa.Instruction) bool {
+		cl, ok := in.(*ssa.Call)
+		return ok && calleeID(cl) == "(*sync.WaitGroup).Wait" && strings.HasSuffix(accessPath(callRecv(cl)), ".wg")
+	}
+	has := false
+	allInstrs(f, func(in ssa.Instruction) {
+		if isWait(in) {
+			has = true
+		}
+	})
+	r := reach(f, f.Blocks[0].Instrs[0], nil, isWait)
+	skip := false
+	for _, ret := range returnsOf(f) {
+		if r(ret) {
+			skip = true
+		}
+	}
+	switch {
+	case !has:
+		c.Bad(rule, key, c.Pos(f.Pos()), "OnStop does not wait for the plotter goroutine")
+	case skip:
+		c.Bad(rule, key, c.Pos(f.Pos()), "OnStop can return without waiting for the plotter goroutine: the old plotter survives a quick Stop/Start and two spaces plot at once")
+	default:
+		c.OK(rule, key, c.Pos(f.Pos()), "sk.wg.Wait() on every path")
 	}
 }
